@@ -56,6 +56,14 @@ func (sc SiteCtx) Resolve(v ssa.Value) ssa.Value {
 			}
 			inner := structFieldValue(args[idx], fld, 0)
 			if inner == nil {
+				// the object is itself a by-value parameter of the caller, handed on unchanged: the
+				// caller's own read of that field (if it has one) stands for it, one level further out
+				if q := handedOnParam(args[idx]); q != nil {
+					if rd := paramFieldRead(q, fld); rd != nil {
+						v = rd
+						continue
+					}
+				}
 				return v
 			}
 			v = strip(inner)
@@ -159,6 +167,17 @@ func paramObjectField(v ssa.Value) (*ssa.Parameter, *types.Var) {
 		if !ok {
 			return nil, nil
 		}
+		// a statement/session object passed by pointer: its field, when nothing but the building literal
+		// ever stores to that field
+		noParamLook++
+		pb := strip(fa.X)
+		noParamLook--
+		if pp, isP := pb.(*ssa.Parameter); isP {
+			if f := fieldOfAddr(fa); !f.Exported() && fieldStoreCount[f] >= 1 && !fieldStoredLater[f] {
+				return pp, f
+			}
+			return nil, nil
+		}
 		cell, ok := fa.X.(*ssa.Alloc)
 		if !ok || cell.Referrers() == nil {
 			return nil, nil
@@ -188,6 +207,13 @@ func paramObjectField(v ssa.Value) (*ssa.Parameter, *types.Var) {
 				if y.Op != token.MUL {
 					return nil, nil
 				}
+			case *ssa.DebugRef:
+			case *ssa.MakeClosure:
+				// captured by a literal that only reads it
+				g, _ := y.Fn.(*ssa.Function)
+				if g == nil || !cellOnlyReadBy(g, y, cell, 0) {
+					return nil, nil
+				}
 			default:
 				return nil, nil
 			}
@@ -197,4 +223,55 @@ func paramObjectField(v ssa.Value) (*ssa.Parameter, *types.Var) {
 		}
 	}
 	return nil, nil
+}
+
+// handedOnParam: v is a by-value struct parameter of the enclosing function passed on as it is — the
+// parameter itself, or the load of the cell it was spilled to (never written otherwise).
+func handedOnParam(v ssa.Value) *ssa.Parameter {
+	noParamLook++
+	defer func() { noParamLook-- }()
+	sv := strip(v)
+	if p, ok := sv.(*ssa.Parameter); ok {
+		if _, isS := p.Type().Underlying().(*types.Struct); isS {
+			return p
+		}
+		return nil
+	}
+	ld, ok := sv.(*ssa.UnOp)
+	if !ok || ld.Op != token.MUL {
+		return nil
+	}
+	cell, ok := ld.X.(*ssa.Alloc)
+	if !ok || !cellFieldsOnlyRead(cell) {
+		return nil
+	}
+	var p *ssa.Parameter
+	n := 0
+	for _, r := range *cell.Referrers() {
+		if st, isSt := r.(*ssa.Store); isSt && st.Addr == ssa.Value(cell) {
+			n++
+			p, _ = st.Val.(*ssa.Parameter)
+		}
+	}
+	if n != 1 {
+		return nil
+	}
+	return p
+}
+
+// paramFieldRead: the first read, in q's function, of field fld of the by-value parameter object q.
+func paramFieldRead(q *ssa.Parameter, fld *types.Var) ssa.Value {
+	for _, in := range instrsOf(q.Parent()) {
+		v, ok := in.(ssa.Value)
+		if !ok {
+			continue
+		}
+		switch in.(type) {
+		case *ssa.Field, *ssa.UnOp:
+			if p, f := paramObjectField(v); p == q && f == fld {
+				return v
+			}
+		}
+	}
+	return nil
 }
